@@ -97,10 +97,10 @@ CLAIMED = {
    text="Proof (Lean 4) on the model of zck_get_chunk_data / zck_get_chunk_comp_data: (1) history independence — once the dictionary is "
         "loaded (or absent) a request's result and resulting context are identical whatever the previous offset, pending stored bytes, "
         "position in the previous chunk, current chunk, end-of-data marker, decoded buffer and chunk checksum context were; (2) content — on a "
-        "well-formed file (every index entry present, verified, of declared length) a data request for chunk k >= 1 with a buffer of the "
-        "declared size returns that size and exactly the chunk's content (its stored bytes decoded with the dictionary the format "
+        "well-formed file (every index entry present, verified, of declared length) a data request for chunk k >= 1 with a buffer of at most the "
+        "declared size returns that many bytes: exactly the beginning of the chunk's content (its stored bytes decoded with the dictionary the format "
         "prescribes), from ANY context with the dictionary loaded and whatever the running data checksum was fed before "
-        "(chunk_data_exact, Props/C14Exact.lean: the reader's loop invariant started inside chunk k); stored-data requests return exactly "
+        "(chunk_data_prefix, chunk_data_exact, Props/C14Exact.lean: the reader's loop invariant started inside chunk k); stored-data requests return exactly "
         "the bytes at the chunk's extent. The implementation is tied to the model by ALL request sequences of length <= 3 (exhaustive) and "
         "random long ones, judged against the reference decoder.",
    design_ref="DESIGN.md section 7a (C14) and section 7 C14",
@@ -153,7 +153,10 @@ CLAIMED = {
         "it out whose index entries describe their chunks (sizes, checksum of the stored bytes, codec round trip) is well-formed for the "
         "reader (written_WF). (3) READ — on a well-formed file EVERY sequence of read buffer sizes succeeds, the loop's fuel suffices "
         "(explicit measure), a short read has delivered exactly the contents of the data chunks in order and zck_close succeeds "
-        "(read_back); together write_read_roundtrip (Props/C01Written.lean). Tied to the code: every WRITE case re-opens, validates and "
+        "(read_back); together write_read_roundtrip (Props/C01Written.lean); for uncompressed files the whole output of zck_close is "
+        "modelled byte for byte (Encode.closeFileNone) and write_close_read_none discharges every hypothesis from that definition: write "
+        "calls -> chunker -> file bytes -> any read schedule = the bytes written. Tied to the code: the file the implementation wrote is "
+        "compared byte for byte with closeFileNone on every uncompressed WRITE case; every WRITE case re-opens, validates and "
         "reads back the produced file, the header bytes the implementation wrote are compared with Encode.header applied to the fields the "
         "reference parser reads out of them (re-serialisation identity) and the file length with header + data; the zck/unzck tools run on "
         "inputs with the split string at every alignment around 32 KiB block edges, chunk structure compared with the model of the scanner.",
